@@ -20,7 +20,7 @@ import re
 LEVEL = 'other'
 UNITS = ['verif:inst_grid.cpp']
 ENGINES = 'E-STATE + E-ORD + E-INT + E-SIB over romea-facts'
-TECHNIQUE = 'byte fills (memset with a value other than 0) as a fact over every function of the class, guards of every whole-grid clear inside translate() evaluated on translations shorter than the axis, wrapped index evaluated for every size 1..8, offset and logical index; arguments of the offset helper belong to its axis, shortcut branches of translate() and validity flags of the index map evaluated (E-STEP) on (size, offset, translation) triples, virtual dispatch of the accessors the derived grid redefines, early return from a non-last axis phase with a satisfiable guard, contiguous row fill through the wrap map for every axis length and offset, axis-block guard evaluated on 1-cell axes, sign-blind partial blanking range fact, offset helper evaluated on every (n, current, d) cell, sweep of every function read (and its in-repo callees) for frozen function-local statics, single precision inside double computations, lossy copy constructors, presence- or argument-keyed member caches, reference members bound to constructor arguments, loop accumulators that are members, members derived in the constructor and not refreshed by setters, results returned by reference to a member buffer, members filled from an argument under a condition that ignores it, hidden non-virtual base members, self-bound reference members, reductions that accumulate in float; blanking stores resolved through helper calls (default-argument fact), reduced-offset fact, signed-modulus lint only where the value becomes unsigned; wrap-count of every cell access (virtual helpers dispatched to the override); structural dataflow on the instantiated AST of translate()/wrapCellIndexes_(): per-axis loop classification, congruence of the offset update (exact algebra), taint and unsigned-modulus lints'
+TECHNIQUE = 'translate() executed on a concrete buffer from every reachable offset state of small grids against the window model (one step from every state: the induction step for sequences; O7), byte fills (memset with a value other than 0) as a fact over every function of the class, guards of every whole-grid clear inside translate() evaluated on translations shorter than the axis, wrapped index evaluated for every size 1..8, offset and logical index; arguments of the offset helper belong to its axis, shortcut branches of translate() and validity flags of the index map evaluated (E-STEP) on (size, offset, translation) triples, virtual dispatch of the accessors the derived grid redefines, early return from a non-last axis phase with a satisfiable guard, contiguous row fill through the wrap map for every axis length and offset, axis-block guard evaluated on 1-cell axes, sign-blind partial blanking range fact, offset helper evaluated on every (n, current, d) cell, sweep of every function read (and its in-repo callees) for frozen function-local statics, single precision inside double computations, lossy copy constructors, presence- or argument-keyed member caches, reference members bound to constructor arguments, loop accumulators that are members, members derived in the constructor and not refreshed by setters, results returned by reference to a member buffer, members filled from an argument under a condition that ignores it, hidden non-virtual base members, self-bound reference members, reductions that accumulate in float; blanking stores resolved through helper calls (default-argument fact), reduced-offset fact, signed-modulus lint only where the value becomes unsigned; wrap-count of every cell access (virtual helpers dispatched to the override); structural dataflow on the instantiated AST of translate()/wrapCellIndexes_(): per-axis loop classification, congruence of the offset update (exact algebra), taint and unsigned-modulus lints'
 EXPLANATION = ('translate() and the wrap map are analysed per instantiation: axis blocks, their d-driven loops (sign and trip count), the blanking '
                'stores with their enclosing loops, index start/advance expressions (as exact congruences modulo the axis size), the offset update '
                '(must read the old offset and be congruent to old+d), and taint of offset-derived values into the re-wrapping index function.')
@@ -313,6 +313,8 @@ def run(fx, R, tier):
         check_wrap(fx, R, gq, dim)
         check_tables(fx, R, gq, dim)
         check_translate(fx, R, gq, dim)
+        if tier != 'quick' or not any(g2 < gq and g2.rstrip('>').split(',')[-1] == gq.rstrip('>').split(',')[-1] for g2 in grids):
+            translate_by_value(fx, R, gq, dim, tier)           # quick: one instantiation per dimension (the template body is the same text); thorough: all
         check_dispatch(fx, R, gq)
 
 
@@ -738,6 +740,93 @@ def flag_fast_path(fx, R, gq, cname, fl):
         return True
     R.holds('O1', inst, 'the plain path is taken only in states whose offset is zero: every writer of `%s` evaluated on %d witness (size, offset, translation) triples' % (flag, n_ok), fx.rel(fl['loc']), 'E-STEP')
     return True
+
+
+def translate_by_value(fx, R, gq, dim, tier):
+    """O7: translate() executed (E-STEP, concrete buffer, helpers of the class inlined) on the property's own bounded quantifier.  For a grid of n cells per axis, EVERY reachable offset state o (0 <= o_k < n_k) is
+    set up with every logical cell holding its own label, one translation d is executed, and the result is compared with the window model: the new logical cell c (read through the class's own
+    computeCellLinearIndex_) must hold the label of old cell c + d when that lies inside the grid and the empty value otherwise, and the offsets must be (o + d) mod n.  One step from every state with
+    arbitrary (all-distinct) contents is the induction step for sequences of any length.  quick: boundary translations (0, +-1, +-(n-1), +-n, +-(n+1)) on a few sizes and one instantiation per dimension; thorough: all 2-D sizes 1..4 (every offset in [-(n+1), n+1] up to 3 cells per axis), more 3-D sizes, every instantiation."""
+    from .. import mini
+    from ..tree import prune
+    from .C20 import deep_unwrap as _du
+    import itertools
+    cname = gname(gq)
+    f = fx.one(gq + '::translate')
+    acc = fx.one(gq + '::computeCellLinearIndex_')
+    if f is None or acc is None or len(f.get('params') or []) != 2:
+        R.undecided('O7', cname + '::translate:by-value', 'anchor vanished: translate / computeCellLinearIndex_')
+        return
+    pn = [p_['name'] for p_ in f['params']]
+    body = prune(f['body'])
+    EMPTY = -7
+    if dim == 2:
+        sizes = [(1, 1), (2, 3), (3, 2)] if tier == 'quick' else [(a, b) for a in range(1, 5) for b in range(1, 5)]
+    else:
+        sizes = [(1, 1, 1), (2, 1, 3)] if tier == 'quick' else [(1, 1, 1), (2, 1, 3), (3, 2, 2), (1, 3, 2), (2, 2, 2)]
+    runs, bad, why = 0, None, None
+    for n in sizes:
+        coef = [1]
+        for k_ in range(1, dim):
+            coef.append(coef[-1] * n[k_ - 1])
+        cells = list(itertools.product(*[range(x_) for x_ in n]))
+        label = {c_: 100 + i_ for i_, c_ in enumerate(cells)}
+
+        def ds(nk):
+            full = list(range(-(nk + 1), nk + 2))
+            if tier != 'quick' and dim == 2 and max(n) <= 3:
+                return full                        # thorough: every offset of the quantifier on the 2-D grids of up to 3 cells per axis, boundary offsets on the others
+            return sorted({d_ for d_ in (-(nk + 1), -nk, -(nk - 1), -1, 0, 1, nk - 1, nk, nk + 1) if d_ in full}) if dim == 2 else sorted({-(nk + 1), -1, 0, 1, nk})
+        for off in cells:
+            for d in itertools.product(*[ds(x_) for x_ in n]):
+                if not any(d):
+                    continue
+                buf = [None] * len(cells)
+                for c_ in cells:
+                    buf[sum(((c_[k_] + off[k_]) % n[k_]) * coef[k_] for k_ in range(dim))] = label[c_]
+                S_ = mini.Step(_du)
+                mini.list_hooks(S_, loops=2000)
+                S_.fallback = mini.inliner(fx, S_, cls=gq)
+                S_.hooks['.dot'] = lambda t, env, S_=S_: sum(a_ * b_ for a_, b_ in zip(S_.ev(t[1], env), S_.ev(t[2], env)))
+                S_.hooks['.setValue'] = lambda t, env, S_=S_: [env['this.buffer_'].__setitem__(i_, S_.ev(t[2], env)) for i_ in range(len(env['this.buffer_']))] and None
+                env = mini.Env({pn[0]: list(d), pn[1]: EMPTY, 'this.numberOfCellsAlongAxes_': list(n), 'this.numberOfCellsAlongAxesMinusOne_': [x_ - 1 for x_ in n],
+                                'this.indexOffsetsAlongAxes_': list(off), 'this.indexCoefficients_': list(coef), 'this.buffer_': buf})
+                try:
+                    S_.call(body, env)
+                    got = {}
+                    for c_ in cells:
+                        env['__q'] = list(c_)
+                        i_ = S_.ev(('.computeCellLinearIndex_', 'this', '__q'), env)
+                        got[c_] = env['this.buffer_'][i_] if isinstance(i_, int) and 0 <= i_ < len(buf) else ('index', i_)
+                except (mini.Unsupported, mini.Returned, TypeError, KeyError, IndexError, ZeroDivisionError, RecursionError) as ex:
+                    why = '%s (grid %s, offsets %s, translation %s)' % (str(ex)[:140], n, off, d)
+                    break
+                runs += 1
+                offs = env['this.indexOffsetsAlongAxes_']
+                want_off = [(off[k_] + d[k_]) % n[k_] for k_ in range(dim)]
+                if list(offs) != want_off:
+                    bad = bad or (n, off, d, 'the reported index offset is %s, the accumulated offset modulo the grid size is %s' % (list(offs), want_off))
+                    continue
+                for c_ in cells:
+                    src = tuple(c_[k_] + d[k_] for k_ in range(dim))
+                    want = label[src] if all(0 <= src[k_] < n[k_] for k_ in range(dim)) else EMPTY
+                    if got[c_] != want:
+                        bad = bad or (n, off, d, 'cell %s reads %s; %s' % (c_, 'the empty value' if got[c_] == EMPTY else ('the value written in old cell %s' % (next((k2 for k2, v2 in label.items() if v2 == got[c_]), '?'),)) if got[c_] in label.values() else got[c_],
+                                                                            ('its map location was cell %s before the translation and has stayed inside the window: it must still read that value' % (src,)) if want != EMPTY
+                                                                            else 'its map location has just entered the window: it must read the empty value supplied to this translation'))
+                        break
+            if why:
+                break
+        if why:
+            break
+    if why:
+        R.undecided('O7', cname + '::translate:by-value', 'translate() not executable on the bounded quantifier: %s' % why)
+    elif bad:
+        R.violated('O7', '%s::translate:by-value' % cname.split('<')[0], 'executing translate() on a grid of %s cells whose index offset is %s, every cell holding its own label, with the translation %s: %s.  (One step from '
+                   'every reachable offset state is the induction step for any sequence of translations and writes) [%s]' % ('x'.join(str(x_) for x_ in bad[0]), list(bad[1]), list(bad[2]), bad[3], cname), fx.rel(f['loc']), 'E-STEP')
+    else:
+        R.holds('O7', cname + '::translate:by-value', 'translate() executed from every offset state of %d grid sizes, %d (state, translation) pairs: surviving cells keep their value, entering cells read the empty value, '
+                'offsets are the accumulated ones modulo the size' % (len(sizes), runs), fx.rel(f['loc']), 'E-STEP')
 
 
 def whole_grid_facts(fx, R, gq, cname, f):
